@@ -183,6 +183,7 @@ type File struct {
 	Program   json.RawMessage     `json:"program,omitempty"`
 	Streams   map[string][]Choice `json:"streams"`
 	Minimised bool                `json:"minimised"`
+	Fresh     bool                `json:"fresh,omitempty"` // no recording: re-run the seed from scratch (process-killing failures)
 	Candidates int                `json:"minimise_candidates,omitempty"`
 }
 
